@@ -1298,6 +1298,7 @@ int QSexact_verify (
 )
 {
    int rval = 0;
+   QSbasis *fbasis = 0;
 
    //assert(basis);
    //assert(basis->nstruct);
@@ -1342,8 +1343,11 @@ int QSexact_verify (
             y_mpq = QScopy_array_dbl_mpq(y_dbl);
             
             /* test optimality of constructed solution */
-            basis = dbl_QSget_basis(p_dbl);
-            rval = QSexact_optimal_test(p_mpq, x_mpq, y_mpq, basis);
+            /* the basis of the float solve, not the caller's: keep them apart */
+            fbasis = dbl_QSget_basis(p_dbl);
+            rval = fbasis ? QSexact_optimal_test(p_mpq, x_mpq, y_mpq, fbasis) : 0;
+            mpq_QSfree_basis(fbasis);
+            fbasis = 0;
             if( rval )
             {
                *result = 1;
@@ -1393,8 +1397,10 @@ int QSexact_verify (
             mpq_EGlpNumSet(y_mpq[i], dbl_d_sol[i]);
             
          /* test optimality of constructed solution */
-         basis = dbl_QSget_basis(p_dbl);
-         rval = QSexact_optimal_test(p_mpq, x_mpq, y_mpq, basis);
+         fbasis = dbl_QSget_basis(p_dbl);
+         rval = fbasis ? QSexact_optimal_test(p_mpq, x_mpq, y_mpq, fbasis) : 0;
+         mpq_QSfree_basis(fbasis);
+         fbasis = 0;
          if( rval )
          {
             *result = 1;
@@ -1499,6 +1505,7 @@ int QSexact_solver (mpq_QSdata * p_mpq,
 		y_mpq = QScopy_array_dbl_mpq (y_dbl);
 		dbl_EGlpNumFreeArray (x_dbl);
 		dbl_EGlpNumFreeArray (y_dbl);
+		mpq_QSfree_basis (basis);	/* one left over from an earlier stage */
 		basis = dbl_QSget_basis (p_dbl);
 		if (QSexact_optimal_test (p_mpq, x_mpq, y_mpq, basis))
 		{
@@ -1555,6 +1562,7 @@ int QSexact_solver (mpq_QSdata * p_mpq,
 		else
 		{
 			MESSAGE (msg_lvl, "Retesting solution in exact arithmetic");
+			mpq_QSfree_basis (basis);	/* one left over from an earlier stage */
 			basis = dbl_QSget_basis (p_dbl);
 			EGcallD(QSexact_basis_status (p_mpq, status, basis, msg_lvl, &simplexalgo));
 			#if 0
@@ -1689,6 +1697,7 @@ int QSexact_solver (mpq_QSdata * p_mpq,
 		switch (*status)
 		{
 		case QS_LP_OPTIMAL:
+			mpq_QSfree_basis (basis);	/* one left over from an earlier stage */
 			basis = mpf_QSget_basis (p_mpf);
 			x_mpf = mpf_EGlpNumAllocArray (p_mpf->qslp->ncols);
 			y_mpf = mpf_EGlpNumAllocArray (p_mpf->qslp->nrows);
@@ -1752,6 +1761,7 @@ int QSexact_solver (mpq_QSdata * p_mpq,
 			else
 			{
 				MESSAGE (msg_lvl, "Retesting solution in exact arithmetic");
+				mpq_QSfree_basis (basis);	/* one left over from an earlier stage */
 				basis = mpf_QSget_basis (p_mpf);
 				EGcallD(QSexact_basis_status (p_mpq, status, basis, msg_lvl, &simplexalgo));
 #if 0
